@@ -29,7 +29,10 @@ type c01Case struct {
 	Key  int         `json:"key"`
 	Body vstat.Bytes `json:"body"`
 	// Big, if > 0, replaces Body by a deterministic body of that many bytes (many hash blocks / buffers)
-	Big       int         `json:"big,omitempty"`
+	Big int `json:"big,omitempty"`
+	// PreVerify: the (tampered) message is first verified under the context it was signed for, as another
+	// protocol of the same process would do, before it is verified under VerifyCtx
+	PreVerify bool        `json:"pre_verify,omitempty"`
 	Ctx       string      `json:"ctx"`
 	HT        int         `json:"ht"`
 	Tampers   []c01Tamper `json:"tampers"`
@@ -57,11 +60,12 @@ var bodyGen = rapid.OneOf(rapid.SliceOfN(rapid.Byte(), 1, 96), rapid.SliceOfN(ra
 
 func genC01(t *rapid.T) c01Case {
 	c := c01Case{
-		Key:  rapid.IntRange(0, 3).Draw(t, "key"),
-		Body: bodyGen.Draw(t, "body"),
-		Big:  gen.BigLen(t, "big"),
-		Ctx:  ctxGen.Draw(t, "ctx"),
-		HT:   rapid.IntRange(1, 3).Draw(t, "ht"),
+		Key:       rapid.IntRange(0, 3).Draw(t, "key"),
+		Body:      bodyGen.Draw(t, "body"),
+		Big:       gen.BigLen(t, "big"),
+		PreVerify: rapid.IntRange(0, 3).Draw(t, "preverify") == 0,
+		Ctx:       ctxGen.Draw(t, "ctx"),
+		HT:        rapid.IntRange(1, 3).Draw(t, "ht"),
 	}
 	nt := rapid.IntRange(0, 3).Draw(t, "ntampers")
 	for i := 0; i < nt; i++ {
@@ -253,6 +257,16 @@ func checkC01(c c01Case) (o vstat.Outcome) {
 		o.Classes = append(o.Classes, "wire-parsable")
 	}
 	_ = honest
+	if c.PreVerify {
+		if v := vstat.Guard("SignedMsg.ExtractAndVerify", func() *vstat.Violation {
+			_, _, _ = msg.ExtractAndVerify(c.Ctx)
+			return nil
+		}); v != nil {
+			o.V = v
+			return
+		}
+		o.Classes = append(o.Classes, "verified-under-signing-context-first")
+	}
 	wantKey, wantID, auth := c01Authentic(msg, c.VerifyCtx)
 	o.V = vstat.Guard("SignedMsg.ExtractAndVerify", func() *vstat.Violation {
 		pub, id, err := msg.ExtractAndVerify(c.VerifyCtx)
